@@ -20,7 +20,10 @@ RULE = ("pop-on programs of 1-4 captions from the C05 model with emphasis on lay
         "1001/30000 s). Also the same program read with ';' and ':' timecodes must give "
         "instants in ratio 1000:1001. Non-trivial: EOC not at word 0 and (>= 2 captions or "
         "offset != 0 or an EDM within 12 frames of the next EOC). "
-        'The SCCReader object is fresh or has a past (see C05). ')
+        'The SCCReader object is fresh or has a past (see C05). '
+        "File layout variants: a line spread over 2-4 frame-contiguous lines at any word, 1-3 "
+        "blanks between code words, blanks for the tab after the timecode, blanks / a tab after "
+        "the last word; the notation (';' / ':') may change from caption to caption. ")
 ASSUMPTIONS = [
     "tolerance 0.01 us against the exact clock (the reader computes in floats)",
     "a gap of <= 5 frames between an erase and the next caption is closed, >= 6 frames is "
@@ -51,9 +54,15 @@ def program_strategy(tier):
                          "hold": draw(st.one_of(st.integers(0, 3), st.integers(40, 150))),
                          "clear": draw(st.booleans()),
                          "dbl": draw(st.lists(st.booleans(), min_size=40, max_size=40))})
+        # the two timecode notations may alternate between captions (the repository's own
+        # fixtures mix them): per caption None = the program's notation, True = ';', False = ':'
+        notation = [None] * n
+        if draw(st.integers(0, 3)) == 0:
+            notation = [draw(st.sampled_from([None, True, False])) for _ in range(n)]
         return {"drop": draw(st.booleans()), "double": draw(st.sampled_from(["none", "all", "random"])),
                 "captions": caps, "offset": draw(st.sampled_from(OFFSETS)),
-                "reuse": draw(SP.reuse_strategy())}
+                "reuse": draw(SP.reuse_strategy()), "cuts": draw(SP.cuts_strategy()),
+                "spacing": draw(SP.spacing_strategy()), "notation": notation}
     return build()
 
 
@@ -62,8 +71,25 @@ def build_lines(prog):
     lines = []
     t = 0
     plan = prog["double"]
-    for cap in prog["captions"]:
+    notation = prog.get("notation") or [None] * len(prog["captions"])
+    cur_drop = prog["drop"]
+    for ci, cap in enumerate(prog["captions"]):
         base = dict(cap)
+        drop = prog["drop"] if notation[ci] is None else notation[ci]
+        if cur_drop is False and drop is True:
+            # the same digits denote an instant 0.1 % earlier with ';' than with ':' (3.6 s at
+            # one hour): move on far enough for the stream to stay in chronological order
+            t += 150
+        cur_drop = drop
+        n_before = len(lines)
+        lines_end = _build_caption(lines, t, cap, base, plan, prog)
+        t = lines_end
+        lines[n_before:] = [(l[0], l[1], drop) for l in lines[n_before:]]
+    return SP.apply_cuts(lines, prog.get("cuts"))
+
+
+def _build_caption(lines, t, cap, base, plan, prog):
+    if True:
         if cap["edm"] != "line":
             sub = SP.build_lines({"drop": prog["drop"], "double": plan, "captions": [dict(base, gap=0)]})
             t += cap["gap"]
@@ -73,7 +99,7 @@ def build_lines(prog):
             t += last_f + len(last_w)
             if not cap["clear"]:
                 t += cap["hold"]
-            continue
+            return t
         # load line, EDM line, EOC line
         sub = SP.build_lines({"drop": prog["drop"], "double": plan,
                               "captions": [dict(base, gap=0, edm="none", eoc_line=True, eoc_gap=0,
@@ -94,11 +120,11 @@ def build_lines(prog):
             t += len(edm_w)
         else:
             t += cap["hold"]
-    return lines
+    return t
 
 
 def expected(prog, lines, start=30 * 3600):
-    shown = R.decode_popon([(start + f, prog["drop"], w) for f, w in lines])
+    shown = R.decode_popon([(start + l[0], l[2] if len(l) > 2 else prog["drop"], l[1]) for l in lines])
     off = Fraction(prog["offset"]) * 10 ** 6
     scr = []
     for s in shown:
@@ -159,10 +185,16 @@ def check_program(case, rec):
         if prev is not None:
             require(prev <= c.start, lambda: f"caption {i} starts before its predecessor: {doc}")
         prev = c.start
-    eoc_not_first = any(len(w) > 2 for _, w in lines)
+    eoc_not_first = any(len(l[1]) > 2 for l in lines)
     near = any(c["edm"] in ("inline", "line") for c in case["captions"])
     rec.nontrivial(eoc_not_first and (len(case["captions"]) >= 2 or case["offset"] != 0 or near))
     rec.label("drop" if case["drop"] else "nondrop")
+    if len({l[2] for l in lines if len(l) > 2}) > 1:
+        rec.label("mixed-notation")
+    if case.get("cuts"):
+        rec.label("cut-lines")
+    if case.get("spacing"):
+        rec.label("spacing-variant")
     rec.label(f"offset:{case['offset']}")
     if near:
         rec.label("edm-near-eoc")
@@ -170,8 +202,8 @@ def check_program(case, rec):
 
 def check_ratio(case, rec):
     """Metamorphic: ';' vs ':' timecodes of the same program, offset 0."""
-    prog = dict(case, offset=0)
-    lines = build_lines(prog)
+    prog = dict(case, offset=0, notation=None)
+    lines = [(l[0], l[1]) for l in build_lines(prog)]
     res = []
     for drop in (True, False):
         p = dict(prog, drop=drop)
